@@ -17,6 +17,10 @@ from gen import yl
 THEOREM_MODULES = ["Yarel.Props.C16", "Yarel.Props.GcCollector", "Yarel.Props.ModelLimits"]
 REQUIRED_THEOREMS = ["overshoot_le_one_alloc", "thr_is_twice_survivors", "no_unbounded_growth", "roots_exact",
                      "collect_complete", "sweep_bytes"]
+# the state the models abstract is all the state there is: the fields of the run-time structures, regenerated on every run, are the ones
+# the models were written against (Props/StateInventory)
+THEOREM_MODULES.append("Yarel.Props.StateInventory")
+REQUIRED_THEOREMS += ['state_of_heap']
 LEVEL = "proof"
 ASSUMPTIONS = [
     "pacing model Yarel/Model/Pacing.lean transcribes Heap::allocate_raw/collect_if_required/collect (tie: replay of real alloc events)",
